@@ -76,7 +76,7 @@ func (*c07Prop) Plans(tier string) []Plan {
 	return []Plan{{Name: "consumers", Workers: 16, Runs: 4000000, MaxTime: 600e9, Size: 20}, {Name: "consumers-small", Workers: 16, Runs: 4000000, MaxTime: 300e9, Size: 7}}
 }
 
-var c07Wraps = []string{"any-pool", "any-pool", "seq-pool", "any-x", "any-x", "any-rev", "choice", "opt", "seq-y", "seq-opt", "many", "sepby", "single", "ltrim", "rtrim", "returnsingle", "sentence", "memo"}
+var c07Wraps = []string{"fwrap-any", "any-pool", "any-pool", "seq-pool", "any-x", "any-x", "any-rev", "choice", "opt", "seq-y", "seq-opt", "many", "sepby", "single", "ltrim", "rtrim", "returnsingle", "sentence", "memo"}
 
 // leftRecTemplate returns one of the classic left-recursive shapes.
 func leftRecTemplate(r *Rand) *Grammar {
@@ -171,6 +171,9 @@ func (*c07Prop) Gen(r *Rand, pl *Plan) Case {
 		switch {
 		case r.Chance(1, 8):
 			s.Kind = "parse" // the whole parsley.Parse pipeline (parse, Transform, StaticCheck) on the shared context
+			if r.Chance(1, 2) {
+				s.Kind = "eval" // ... and the result evaluated twice (library Array interpreter on SepBy nodes)
+			}
 		case r.Chance(1, 4):
 			s.Kind = "root"
 		default:
@@ -592,7 +595,7 @@ func (m *monitor) wrap(idx int, n *GNode, layer string, p parsley.Parser) parsle
 	switch n.Op {
 	case "seq", "seqtry", "seqfoa", "many", "many1", "sepby", "sepby1", "sentence":
 		fresh = n.Arg != "single"
-	case "rune", "urune", "unode", "op", "int", "float", "str", "char", "bool", "nil", "word", "regexp", "dur":
+	case "rune", "urune", "unode", "unode2", "op", "int", "float", "str", "char", "bool", "nil", "word", "regexp", "dur":
 		fresh = true // a terminal parser builds its node itself
 	}
 	if layer == "inner" {
@@ -616,6 +619,12 @@ func (s *c07Step) parser(c *c07Case, b *built, m *monitor, nullable []bool) pars
 	var p parsley.Parser
 	label := "wrap:" + s.Wrap
 	switch s.Wrap {
+	case "fwrap-any":
+		// a parser.FuncWrapper around the pool parser, extended by an enclosing Any
+		fw := &parser.FuncWrapper{F: func(ctx *parsley.Context, lrc data.IntMap, pos parsley.Pos) (parsley.Node, data.IntSet, parsley.Error) {
+			return k.Parse(ctx, lrc, pos)
+		}}
+		p = combinator.Any(combinator.Any(fw, x), combinator.Any(fw, b.Slots[s.Other%len(b.Slots)]))
 	case "any-pool":
 		// two pool parsers (possibly both memoised and left-recursive: their curtailing sets
 		// are merged by the enclosing combinator)
@@ -689,7 +698,7 @@ func (*c07Prop) Run(cc Case) (v Verdict) {
 		v.Faults["map_order_stream"] = 1
 	}
 	m := newMonitor()
-	b := build(c.G, &buildOpts{Memo: true, Wrap: m.wrap})
+	b := build(c.G, &buildOpts{Memo: true, Wrap: m.wrap, LibInterp: true})
 	an := c.G.analyze()
 	ctx := newCtx(c.Input, c.Prefix)
 	first := map[[2]int]string{}
@@ -697,13 +706,24 @@ func (*c07Prop) Run(cc Case) (v Verdict) {
 	for i := range c.Steps {
 		s := &c.Steps[i]
 		consumers[s.Consumer] = true
-		if s.Kind == "parse" {
+		if s.Kind == "parse" || s.Kind == "eval" {
 			ctx.EnableTransformation()
 			ctx.EnableStaticCheck()
 			n, _ := parsley.Parse(ctx, b.Root)
 			m.track(n)
 			m.checkAll()
-			v.Probes["requests:parse"]++
+			v.Probes["requests:"+s.Kind]++
+			if s.Kind == "eval" && n != nil && m.viol == nil {
+				for rep := 0; rep < 2 && m.viol == nil; rep++ {
+					m.stack = append(m.stack, frame{label: "evaluation of the result (interpreters)", idx: c.G.Root})
+					func() {
+						defer func() { recover() }() // an interpreter may panic on shapes it does not expect
+						parsley.EvaluateNode(nil, n)
+					}()
+					m.checkAll()
+					m.stack = m.stack[:len(m.stack)-1]
+				}
+			}
 			if m.viol != nil {
 				break
 			}
